@@ -331,3 +331,12 @@ def add_http_ser(reg):
     reg.specfuns['join'] = jn
     reg.specfuns['dec'] = SpecFun('dec', ['int'], 'str', define=lambda n: z3.If(
         n >= 0, z3.IntToStr(n), z3.Concat(z3.StringVal('-'), z3.IntToStr(-n))))
+
+
+def add_intparse(reg):
+    """int(b) / int(b, 16) on byte strings: uninterpreted value + validity predicate (A-STR)."""
+    for nm in ('int_dec', 'int_hex'):
+        reg.specfuns[nm] = SpecFun(nm, ['bytes'], 'int')
+        reg.specfuns[nm + '_ok'] = SpecFun(nm + '_ok', ['bytes'], 'bool')
+    reg.assumptions.append('A-STR: int(s) / int(s, 16) raise ValueError exactly outside an uninterpreted validity predicate; '
+                           'their value is an uninterpreted function of the text')
